@@ -52,11 +52,18 @@ def generator_class(src: Path):
     return importlib.import_module("protocol_code_generator.generate.code_generator").ProtocolCodeGenerator
 
 
-def generate(src: Path, xml_root: Path, out: Path | None = None):
-    """Runs the real generator; returns None on success or the exception it raised."""
+def generate(src: Path, xml_root: Path, out: Path | None = None, warmups=()):
+    """Runs the real generator; returns None on success or the exception it raised.  warmups: (xml_root, out) pairs generated first,
+    in the same process with the same imported generator (a run must not depend on what ran before it)."""
     out = out or (src / "eolib" / "protocol" / "_generated")
     cls = generator_class(src)
     buf = io.StringIO()
+    for wx, wo in warmups:
+        try:
+            with contextlib.redirect_stdout(buf):
+                cls(Path(wx)).generate(Path(wo))
+        except Exception:
+            pass
     try:
         with contextlib.redirect_stdout(buf):
             cls(Path(xml_root)).generate(Path(out))
